@@ -10,7 +10,7 @@ const char *behav_name(int b) {
 	static const char *n[] = {"honest", "foreign-id", "stale-gen", "other-hash", "broken-link", "lc-256", "lc-2^32", "low-level",
 		"wrong-agg-time", "wrong-pub-time", "bad-shape", "other-input", "altered-right-link", "status-err", "error-pdu",
 		"bad-mac", "other-key", "other-alg", "other-ver", "no-header", "no-mac", "truncated", "garbage-pdu", "conf-only",
-		"with-conf", "no-cal", "index-gap", "index-short", "index-prefix", "index-shape", "status-with-content", "extra-links", "no-agg-time", "response-plus-error", "v1-reflected-request", "pub-shifted-no-agg-time", "metadata-imprint-like"};
+		"with-conf", "no-cal", "index-gap", "index-short", "index-prefix", "index-shape", "status-with-content", "extra-links", "no-agg-time", "response-plus-error", "v1-reflected-request", "pub-shifted-no-agg-time", "metadata-imprint-like", "over-long-imprint"};
 	return (b >= 0 && b < B__COUNT) ? n[b] : "?";
 }
 
@@ -144,7 +144,16 @@ bool classify_response(const std::string &pdu, const std::string &key, RespInfo 
 				r.has_chains = true;
 				// the lowest chain is the one with the longest index
 				size_t best = 0; std::string in;
-				for (auto *c : chains) { r.chain_encs.push_back(c->enc()); AggChain a; if (parse_agg_chain(*c, a) && a.index.size() >= best) { best = a.index.size(); in = a.input; } }
+				for (auto *c : chains) {
+					r.chain_encs.push_back(c->enc());
+					AggChain a;
+					if (!parse_agg_chain(*c, a)) continue;
+					if (a.index.size() >= best) { best = a.index.size(); in = a.input; }
+					// an imprint that does not have the length of its algorithm's digest makes the whole PDU unparsable for a client
+					auto badimp = [](const std::string &x) { return x.empty() || hash_len((unsigned char)x[0]) == 0 || (size_t)hash_len((unsigned char)x[0]) + 1 != x.size(); };
+					if (badimp(a.input)) r.malformed_imprint = true;
+					for (auto &l : a.links) if (l.kind == 0 && badimp(l.sib)) r.malformed_imprint = true;
+				}
 				r.first_input = in;
 			}
 			if (const Tlv *c = q.find(0x0802)) {
@@ -291,6 +300,7 @@ std::vector<AggChain> World::build_chains(const std::string &hash, uint64_t leve
 			else if (kind == 1) { l.kind = 2; l.sib = metadata_payload("client-" + std::to_string(rng.below(1000)), true); }
 			else { l.kind = 0; l.sib = imprint(rng.chance(1, 5) ? 5 : 1, "sib" + std::to_string(rng.next())); }
 			if (behav == B_METADATA_IMPRINT_LIKE && i == n - 1 && j == nl - 1) { l.kind = 2; l.sib = metadata_payload(std::string(30, 'c'), false); }
+			if (behav == B_LONG_IMPRINT && i == n - 1 && j == nl - 1) { l.kind = 0; l.sib = imprint(1, "long sib" + std::to_string(subseed)) + std::string(8, '\x5a'); }
 			c.links.push_back(l);
 		}
 		if ((behav == B_LC_256 || behav == B_LC_2P32) && i == n - 1) {
@@ -457,7 +467,7 @@ std::string World::ext_reply(const ReqInfo &rq, const EndpointCfg &ep, int behav
 	Rng rng(sim::mix(subseed, 0xe47));
 	// behaviours that only make sense for aggregation chains are plain honest replies here
 	if (behav == B_OTHER_HASH || behav == B_BROKEN_LINK || behav == B_LC_256 || behav == B_LC_2P32 || behav == B_LOW_LEVEL || behav == B_NO_CAL ||
-	    behav == B_INDEX_GAP || behav == B_INDEX_SHORT || behav == B_INDEX_PREFIX || behav == B_INDEX_SHAPE || behav == B_METADATA_IMPRINT_LIKE) behav = B_HONEST;
+	    behav == B_INDEX_GAP || behav == B_INDEX_SHORT || behav == B_INDEX_PREFIX || behav == B_INDEX_SHAPE || behav == B_METADATA_IMPRINT_LIKE || behav == B_LONG_IMPRINT) behav = B_HONEST;
 	if (behav == B_WRONG_PUB_TIME && !rq.has_pub_time) behav = B_HONEST; // any publication time answers a request that names none
 	meta = ReplyMeta();
 	meta.behav = behav;
